@@ -2834,6 +2834,13 @@ BOOST_PP_REPEAT(BOOST_PP_ADD(BOOST_MSM_VISITOR_ARG_SIZE,1), MSM_VISITOR_ARGS_EXE
          template<class Event>
          static void do_exit(library_sm*,Event const& ){}
      };
+     // clears the "event processing" marker at scope exit, also when leaving through an exception
+     struct event_processing_reset
+     {
+         explicit event_processing_reset(bool& flag):m_flag(flag){}
+         ~event_processing_reset(){m_flag = false;}
+         bool& m_flag;
+     };
      // entry/exit for states machines which are themselves embedded in other state machines (composites)
      template <class Event,class FsmType>
      void do_entry(Event const& incomingEvent,FsmType& fsm)
@@ -2842,8 +2849,12 @@ BOOST_PP_REPEAT(BOOST_PP_ADD(BOOST_MSM_VISITOR_ARG_SIZE,1), MSM_VISITOR_ARGS_EXE
         region_entry_exit_helper< ::boost::mpl::int_<0> >::do_entry(this,incomingEvent);
         // block immediate handling of events
         m_event_processing = true;
-        // if the event is generating a direct entry/fork, set the current state(s) to the direct state(s)
-        direct_event_start_helper(this)(incomingEvent,fsm);
+        {
+            // if an entry behaviour throws, do not leave this machine blocked forever
+            event_processing_reset reset_if_thrown(m_event_processing);
+            // if the event is generating a direct entry/fork, set the current state(s) to the direct state(s)
+            direct_event_start_helper(this)(incomingEvent,fsm);
+        }
         // handle messages which were generated and blocked in the init calls
         m_event_processing = false;
         // look for deferred events waiting
